@@ -1,3 +1,5 @@
+//go:build drv_journal || drv_all
+
 package main
 
 import (
